@@ -15,6 +15,8 @@ Open Scope N_scope.
    represents sg on the variables of e, with no user variable spelled like a converter helper:
    if e has the value v (peval) then the lines the converter appends run without error and leave the value's
    text in the returned atom; no variable other than fresh helpers changes. *)
+From Verif Require Import Facts.C01Facts.
+
 Theorem C01_expression_preserved : forall e sg used s vs s' b v,
   pure e = true ->
   t_expr bash_conv e used s = TOk vs s' -> peval sg e = Some v -> env_ok sg -> lits_ok e ->
@@ -22,11 +24,7 @@ Theorem C01_expression_preserved : forall e sg used s vs s' b v,
   exists ls a b',
     vs = [a] /\ b_code s' = b_code s ++ ls /\ exec_lines b ls = Some b' /\ atom_text b' a = text v /\
     (forall n, (forall k, (b_var_counter s <= k < b_var_counter s')%nat -> n <> helper_name s k) -> sh_get n b' = sh_get n b).
-Proof.
-  intros e sg used s vs s' b v Hp Ht Hv He Hl Hr Hh.
-  destruct (expr_preserve e Hp sg used s vs s' b v Ht Hv He Hl Hr Hh) as [ls a b' O E M R V F S].
-  exists ls, a, b'. split; [exact O|]. split; [apply (x_code _ _ _ E)|]. auto.
-Qed.
+Proof. exact C01_expression_preserved_proof. Qed.
 Print Assumptions C01_expression_preserved.
 
 (* Integer literals: what the converters print is read back as the same int64. *)
